@@ -257,6 +257,15 @@ def compare(fa, fb, L, tol, shape3d, skip=()):
             continue
         dim = _dim_of(name, shape3d)
         scale = (L ** dim) if dim else 1.0
+        if not dim and ta is None:
+            # a dimensionless ratio of sizes each good to tol (asphericity of a needle is in the hundreds):
+            # the comparison is relative to its magnitude
+            try:
+                mag = float(np.nanmax(np.abs(np.asarray(a, dtype=float)))) if np.size(a) else 1.0
+                if np.isfinite(mag):
+                    scale = max(1.0, mag)
+            except (TypeError, ValueError):
+                pass
         if ta is None:
             if name == "is_inside":
                 if np.asarray(a).shape != np.asarray(b).shape or np.mean(np.asarray(a) != np.asarray(b)) > 0.0:
